@@ -23,10 +23,14 @@ EXTENDS Naturals, Sequences, FiniteSets, TLC
 None == [none |-> TRUE]
 ZRange(s) == {s[i] : i \in 1..Len(s)}
 
-\* the mapping documented in field.rs as_rust_type (27 names)
+\* the other builtins of XSD whose values are text (added to the table in the build round, D35)
+TextBuiltins == {"token", "Name", "NCName", "NMTOKEN", "NMTOKENS", "ID", "IDREF", "IDREFS", "ENTITY", "ENTITIES", "QName", "NOTATION",
+                 "gYear", "gYearMonth", "gMonth", "gMonthDay", "gDay", "anySimpleType"}
+\* the mapping documented in field.rs as_rust_type (27 names + the text builtins)
 Carrier(b) ==
   CASE b = "byte" -> "i8"
     [] b \in {"string", "normalizedString", "base64Binary", "hexBinary", "anyURI", "date", "dateTime", "time", "language", "duration"} -> "String"
+    [] b \in TextBuiltins -> "String"
     [] b \in {"decimal", "double"} -> "f64"
     [] b = "float" -> "f32"
     [] b \in {"integer", "int", "negativeInteger", "nonNegativeInteger", "nonPositiveInteger", "positiveInteger"} -> "i32"
@@ -41,7 +45,7 @@ Carrier(b) ==
 Builtins == {"byte", "string", "normalizedString", "base64Binary", "hexBinary", "anyURI", "date", "dateTime", "time", "language",
              "duration", "decimal", "double", "float", "integer", "int", "negativeInteger", "nonNegativeInteger",
              "nonPositiveInteger", "positiveInteger", "long", "unsignedLong", "unsignedInt", "unsignedShort", "unsignedByte",
-             "short", "boolean"}
+             "short", "boolean"} \cup TextBuiltins
 
 ---------------------------------------------------------------------------
 (* files, scopes, reachability *)
